@@ -326,7 +326,10 @@ pub fn run_shard_opt<C: Case>(
                 let mut tree = tree;
                 let mut best: (C, String) = (case, msg);
                 let mut iters = 0;
-                while iters < 300 && tree.simplify() {
+                // shrinking effort is bounded by evaluations AND by wall time (expensive cases);
+                // the time bound only limits how small the reported case gets, never the verdict
+                let shrink_start = Instant::now();
+                while iters < 300 && shrink_start.elapsed().as_secs() < 20 && tree.simplify() {
                     iters += 1;
                     loop {
                         let t = tree.current();
@@ -341,7 +344,7 @@ pub fn run_shard_opt<C: Case>(
                             }
                             Ok(()) => {
                                 iters += 1;
-                                if iters >= 300 || !tree.complicate() {
+                                if iters >= 300 || shrink_start.elapsed().as_secs() >= 20 || !tree.complicate() {
                                     break;
                                 }
                             }
@@ -366,9 +369,10 @@ pub fn minimise<C: Case>(
 ) -> (C, String) {
     let mut best = start;
     let mut budget = 3000;
+    let t0 = Instant::now();
     'outer: loop {
         for cand in best.0.smaller() {
-            if budget == 0 {
+            if budget == 0 || t0.elapsed().as_secs() >= 40 {
                 break 'outer;
             }
             budget -= 1;
